@@ -245,7 +245,9 @@ class Negotiated:
         if self.received_open.router_id == RouterID('0.0.0.0'):
             return (2, 3, '0.0.0.0 is an invalid router_id')
 
-        if self.received_open.asn == neighbor.session.local_as:
+        # peer_as is the real AS of the peer (the 4-byte capability value when the OPEN field
+        # only carries AS_TRANS): comparing the 2-byte field missed every 4-byte AS IBGP session
+        if self.peer_as == neighbor.session.local_as:
             # router-id must be unique within an ASN
             if self.received_open.router_id == neighbor.session.router_id:
                 return (
